@@ -112,6 +112,27 @@ Proof.
   - f_equal. apply IH.
 Qed.
 
+Lemma takeZ_app_ge n a b : lenZ a <= n -> takeZ n (a ++ b) = a ++ takeZ (n - lenZ a) b.
+Proof.
+  intros Hn. rewrite !takeZ_firstn, firstn_app, lenZ_length in *.
+  rewrite firstn_all2 by lia. f_equal. f_equal. lia.
+Qed.
+Lemma dropZ_app_ge n a b : lenZ a <= n -> dropZ n (a ++ b) = dropZ (n - lenZ a) b.
+Proof.
+  intros Hn. rewrite !dropZ_skipn, skipn_app, lenZ_length in *.
+  rewrite skipn_all2 by lia. cbn [app]. f_equal. lia.
+Qed.
+Lemma takeZ_app_le n a b : n <= lenZ a -> takeZ n (a ++ b) = takeZ n a.
+Proof.
+  intros Hn. rewrite !takeZ_firstn, firstn_app, lenZ_length in *.
+  replace (Z.to_nat n - length a)%nat with 0%nat by lia. cbn [firstn]. apply app_nil_r.
+Qed.
+Lemma dropZ_app_le n a b : n <= lenZ a -> dropZ n (a ++ b) = dropZ n a ++ b.
+Proof.
+  intros Hn. rewrite !dropZ_skipn, skipn_app, lenZ_length in *.
+  replace (Z.to_nat n - length a)%nat with 0%nat by lia. reflexivity.
+Qed.
+
 (** ** list_eqb *)
 Lemma list_eqb_eq a : forall b, list_eqb a b = true <-> a = b.
 Proof.
